@@ -1624,6 +1624,49 @@ fn kmeans_run<F: Fl, D: Distance<F> + std::fmt::Debug + 'static>(
     Ok(out)
 }
 
+/// The documented rule is strict: a step is reported converged iff the shift of the centroid matrix
+/// is *below* the tolerance. On small integer data with the L1 metric every quantity is a dyadic
+/// rational and exact, so the boundary can be hit exactly: with the tolerance set to the observed
+/// shift the same step must be reported as not converged, one float further up as converged.
+fn kmeans_exact_boundary(c: &mut Case) -> Outcome {
+    let p = c.rng.gen_range(1..=2usize);
+    let k = c.rng.gen_range(1..=2usize);
+    let n = c.rng.gen_range(k + 1..=6usize);
+    let x = Array2::<f64>::from_shape_fn((n, p), |_| c.rng.gen_range(-8..9) as f64);
+    let init = Array2::<f64>::from_shape_fn((k, p), |(i, j)| (4 * i as i32 - 2 + j as i32) as f64);
+    let laid = Laid::<f64>::new(&x, 0);
+    let sizes = vec![n];
+    let exact = |a: &Array2<f64>| a.iter().all(|v| (v * 1048576.0).fract() == 0.0 && v.abs() < 1e4);
+    let first = match kmeans_run::<f64, L1Dist>(L1Dist, &laid, &sizes, k, KMeansInit::Precomputed(init.clone()), 1e-9, 1, 7) {
+        Ok(v) => v,
+        Err((sig, d)) => return violated(sig, d),
+    };
+    let after = first[0].0.clone();
+    if !exact(&after) {
+        return inconclusive("centroids after the step are not short dyadic rationals (shift not exact)");
+    }
+    let shift: f64 = init.iter().zip(after.iter()).map(|(a, b)| (a - b).abs()).sum();
+    if !(shift > 0.0) {
+        return held(false, "no-shift".to_string());
+    }
+    c.note("x", json!(x.rows().into_iter().map(|r| r.to_vec()).collect::<Vec<_>>()));
+    c.note("init", json!(init.rows().into_iter().map(|r| r.to_vec()).collect::<Vec<_>>()));
+    c.note("shift", json!(shift));
+    let up = f64::from_bits(shift.to_bits() + 1);
+    for (tol, want) in [(shift, false), (up, true)] {
+        let r = match kmeans_run::<f64, L1Dist>(L1Dist, &laid, &sizes, k, KMeansInit::Precomputed(init.clone()), tol, 1, 7) {
+            Ok(v) => v,
+            Err((sig, d)) => return violated(sig, d),
+        };
+        ensure!(r[0].0 == after, "C15/kmeans/centroids-depend-on-the-tolerance", {"tolerance": tol});
+        ensure!(r[0].2 == want, "C15/kmeans/convergence-flag-at-the-boundary",
+            {"shift_exact": shift, "tolerance": tol, "reported_converged": r[0].2, "documented": "converged iff shift < tolerance"});
+    }
+    c.count("kmeans-exact-boundary-steps");
+    c.evals = 3;
+    held(true, format!("exact-boundary n={n} p={p} k={k} {:x}", small_hash(x.iter().cloned())))
+}
+
 fn flat(a: &Array2<f64>) -> Vec<f64> {
     a.iter().cloned().collect()
 }
@@ -2463,6 +2506,7 @@ pub fn run(ctx: &Ctx) {
         c.note("variant", json!(variant));
         km_dispatch(c, f32mode, metric, &w, (variant % 3) as u8)
     });
+    ctx.family("kmeans-exact-tolerance-boundary", 600 * scale, kmeans_exact_boundary);
     ctx.family("kmeans-first-batch-init", 4000 * scale, |c| {
         let f32mode = c.idx % 3 == 2;
         let l1 = c.idx % 4 == 1;
